@@ -275,7 +275,18 @@ fn file_case(rng: &mut Rng, out: &mut UnitResult, unit: u64, i: u64) {
     // ---- encode, open, compare
     let (bytes, formulas, defined): (Vec<u8>, Vec<Result<calamine::Range<String>, String>>, Option<Vec<(String, String)>>) = match fmt {
         "xls" => {
-            let extra = BiffExtra { rgce: rg_map, names: names_rg, xtis: c.xti_sheet_idx.iter().map(|i| (0u16, *i as i16, *i as i16)).collect() };
+            // every third workbook has a chart or VBA-module sheet in front of the worksheets: the
+            // sheet indices of the XTI table count every BoundSheet record
+            let shift = if i % 3 == 0 { 1usize } else { 0 };
+            let mut book = book.clone();
+            if shift == 1 {
+                let mut s0 = MSheet::new("ChartOrModule");
+                s0.kind = if rng.bool() { SheetKind::Chart } else { SheetKind::Vba };
+                book.sheets.insert(0, s0);
+                out.feat("xls:non_worksheet_before_3d_target");
+            }
+            let rg_map: BTreeMap<(usize, Pos), Vec<u8>> = rg_map.into_iter().map(|(k, v)| ((k.0 + shift, k.1), v)).collect();
+            let extra = BiffExtra { rgce: rg_map, names: names_rg, xtis: c.xti_sheet_idx.iter().map(|i| (0u16, (*i + shift) as i16, (*i + shift) as i16)).collect() };
             let (bytes, _) = crate::enc::xls_file(&book, &BiffChoices::random(rng), &extra, &CfbChoices::default(), &[], rng);
             match guard(|| Xls::new(Cursor::new(bytes.clone()))) {
                 Ok(Ok(mut w)) => {
@@ -413,7 +424,7 @@ impl Prop for C14 {
         Some("column lettering: push_column for every column 0..16383".into())
     }
     fn mandatory(&self, _t: Tier) -> Vec<String> {
-        let mut v: Vec<String> = ["push_column_sweep", "file:xls", "file:xlsb", "file:xlsx", "file:ods", "defined_names:xls", "defined_names:xlsb", "formula_less_name", "xls:builtin_name", "xlsb:last_row", "ods:formula_without_cached_value"].iter().map(|s| s.to_string()).collect();
+        let mut v: Vec<String> = ["push_column_sweep", "file:xls", "file:xlsb", "file:xlsx", "file:ods", "defined_names:xls", "defined_names:xlsb", "formula_less_name", "xls:builtin_name", "xls:non_worksheet_before_3d_target", "xlsb:last_row", "ods:formula_without_cached_value"].iter().map(|s| s.to_string()).collect();
         for f in ["xls", "xlsb"] {
             for k in ["PtgRef", "PtgArea", "PtgRef3d", "PtgArea3d", "PtgName", "PtgInt", "PtgNum", "PtgStr", "PtgBool", "PtgErr", "PtgMissArg", "unary", "binary", "PtgParen", "PtgFunc", "PtgFuncVar", "PtgAttrSum"] {
                 v.push(format!("{}:{}", f, k));
